@@ -7,6 +7,8 @@ import Mathlib.Algebra.BigOperators.Group.Finset.Basic
 import Mathlib.Algebra.BigOperators.Ring.Finset
 import Mathlib.Algebra.BigOperators.Intervals
 import Mathlib.Algebra.BigOperators.Group.List.Basic
+import Mathlib.Algebra.Ring.GeomSum
+import Mathlib.Tactic.LinearCombination
 /-
   Ark.Proofs.PolyB — helper lemmas for property C08 (part b): sparse polynomials, the
   sparse constructor, sparse operators, dense/sparse conversions and mixed operators, division
@@ -519,5 +521,1462 @@ theorem sFromCoefficientsVec_spec (v : Terms F) :
     have := (List.mem_filter.1 ht).2
     simpa using this
   · rw [scoeff_filter_nonzero, h.2, scoeff_sortTerms]; simp
+
+/-! ## 3. corollaries of the constructor: `sMul`, `denseToSparse`, the vanishing polynomial -/
+
+/-- convolution of coefficient functions: `Σ_{i+j=k} f i · g j` -/
+def sconv (f g : Nat → F) (k : Nat) : F := ∑ i ∈ Finset.range (k + 1), f i * g (k - i)
+
+theorem sconv_delta (d : Nat) (c : F) (g : Nat → F) (k : Nat) :
+    sconv (fun i => if d = i then c else 0) g k = if d ≤ k then c * g (k - d) else 0 := by
+  unfold sconv
+  simp only [ite_mul, zero_mul]
+  rw [Finset.sum_ite_eq]
+  simp [Nat.lt_succ_iff]
+
+theorem sconv_add_left (f f' g : Nat → F) (k : Nat) :
+    sconv (fun i => f i + f' i) g k = sconv f g k + sconv f' g k := by
+  unfold sconv; rw [← Finset.sum_add_distrib]; apply Finset.sum_congr rfl; intros; ring
+
+theorem sconv_zero_left (f g : Nat → F) (k : Nat) (h : ∀ i, f i = 0) : sconv f g k = 0 := by
+  unfold sconv; apply Finset.sum_eq_zero; intro i _; rw [h]; ring
+
+theorem sconv_zero_right (f g : Nat → F) (k : Nat) (h : ∀ i, g i = 0) : sconv f g k = 0 := by
+  unfold sconv; apply Finset.sum_eq_zero; intro i _; rw [h]; ring
+
+theorem scoeff_btAdd (k : Nat) (v : F) (m : Terms F) (i : Nat) :
+    scoeff (btAdd k v m) i = scoeff m i + if k = i then v else 0 := by
+  induction m with
+  | nil => simp [btAdd, scoeff_cons]
+  | cons u m ih =>
+    obtain ⟨k', v'⟩ := u
+    rw [btAdd]
+    by_cases h1 : k < k'
+    · rw [if_pos h1]; simp only [scoeff_cons]; ring
+    · rw [if_neg h1]
+      by_cases h2 : k = k'
+      · rw [if_pos h2]; subst h2; simp only [scoeff_cons]
+        by_cases h3 : k = i <;> simp [h3]; ring
+      · rw [if_neg h2]; simp only [scoeff_cons, ih]; ring
+
+theorem sMul_inner (a : Nat × F) (t m0 : Terms F) (k : Nat) :
+    scoeff (t.foldl (fun m b => btAdd (a.1 + b.1) (a.2 * b.2) m) m0) k
+      = scoeff m0 k + if a.1 ≤ k then a.2 * scoeff t (k - a.1) else 0 := by
+  induction t generalizing m0 with
+  | nil => simp
+  | cons b t ih =>
+    simp only [List.foldl_cons]
+    rw [ih, scoeff_btAdd, scoeff_cons]
+    by_cases h : a.1 ≤ k
+    · rw [if_pos h, if_pos h]
+      by_cases h2 : a.1 + b.1 = k
+      · have : b.1 = k - a.1 := by omega
+        rw [if_pos h2, if_pos this]; ring
+      · have : ¬ b.1 = k - a.1 := by omega
+        rw [if_neg h2, if_neg this]; ring
+    · have : ¬ a.1 + b.1 = k := by omega
+      rw [if_neg h, if_neg h, if_neg this]; ring
+
+theorem sMul_outer (s t m0 : Terms F) (k : Nat) :
+    scoeff (s.foldl (fun m a => t.foldl (fun m b => btAdd (a.1 + b.1) (a.2 * b.2) m) m) m0) k
+      = scoeff m0 k + sconv (scoeff s) (scoeff t) k := by
+  induction s generalizing m0 with
+  | nil => rw [sconv_zero_left _ _ _ (fun i => scoeff_nil i)]; simp
+  | cons a s ih =>
+    simp only [List.foldl_cons]
+    rw [ih, sMul_inner]
+    have : sconv (scoeff (a :: s)) (scoeff t) k
+        = sconv (fun i => if a.1 = i then a.2 else 0) (scoeff t) k + sconv (scoeff s) (scoeff t) k := by
+      rw [← sconv_add_left]; congr 1; funext i; rw [scoeff_cons]
+    rw [this, sconv_delta]; ring
+
+/-- `sMul` (for ALL stored operands): canonical, convolution coefficients -/
+theorem sMul_spec (s t : Terms F) :
+    SCanon (sMul s t) ∧ ∀ k, scoeff (sMul s t) k = sconv (scoeff s) (scoeff t) k := by
+  unfold sMul
+  by_cases hz : (sIsZero s || sIsZero t) = true
+  · rw [if_pos hz]
+    refine ⟨scanon_nil, fun k => ?_⟩
+    rw [Bool.or_eq_true] at hz
+    rcases hz with hz | hz
+    · rw [sconv_zero_left _ _ _ (sIsZero_scoeff s hz)]; rfl
+    · rw [sconv_zero_right _ _ _ (sIsZero_scoeff t hz)]; rfl
+  · rw [if_neg hz]
+    simp only
+    refine ⟨(sFromCoefficientsVec_spec _).1, fun k => ?_⟩
+    rw [(sFromCoefficientsVec_spec _).2, sMul_outer]; simp
+
+theorem scoeff_nonzeroTerms (a : List F) (j i : Nat) :
+    scoeff (nonzeroTerms a j) i = if j ≤ i then coeffB a (i - j) else 0 := by
+  induction a generalizing j with
+  | nil => simp [nonzeroTerms]
+  | cons c cs ih =>
+    rw [nonzeroTerms]
+    have key : (if j ≤ i then coeffB (c :: cs) (i - j) else 0)
+        = (if j = i then c else 0) + if j + 1 ≤ i then coeffB cs (i - (j + 1)) else 0 := by
+      by_cases h1 : j = i
+      · subst h1; simp
+      · by_cases h2 : j ≤ i
+        · have h3 : j + 1 ≤ i := by omega
+          obtain ⟨d, rfl⟩ : ∃ d, i = j + 1 + d := ⟨i - (j + 1), by omega⟩
+          have e1 : j + 1 + d - j = d + 1 := by omega
+          have e2 : j + 1 + d - (j + 1) = d := by omega
+          simp [h1, h2, h3, e1, e2]
+        · have h3 : ¬ j + 1 ≤ i := by omega
+          simp [h1, h2, h3]
+    by_cases hc : c = 0
+    · rw [if_pos hc, ih, key, hc]; simp
+    · rw [if_neg hc, scoeff_cons, ih, key]
+
+/-- `denseToSparse` (for ALL stored vectors): canonical, same coefficient function -/
+theorem denseToSparse_spec (a : List F) :
+    SCanon (denseToSparse a) ∧ ∀ i, scoeff (denseToSparse a) i = coeffB a i := by
+  unfold denseToSparse
+  refine ⟨(sFromCoefficientsVec_spec _).1, fun i => ?_⟩
+  rw [(sFromCoefficientsVec_spec _).2, scoeff_nonzeroTerms]; simp
+
+/-- `Domain.vanishingPolynomial` is `X^n − h^n` -/
+theorem vanishingPolynomial_spec (D : Domain F) :
+    SCanon D.vanishingPolynomial ∧ ∀ i, scoeff D.vanishingPolynomial i
+      = (if i = D.size then 1 else 0) - (if i = 0 then D.offset ^ D.size else 0) := by
+  unfold Domain.vanishingPolynomial
+  refine ⟨(sFromCoefficientsVec_spec _).1, fun i => ?_⟩
+  rw [(sFromCoefficientsVec_spec _).2]
+  simp only [scoeff_cons, scoeff_nil, Domain.offsetPowSize, pow_eq, @eq_comm _ 0 i,
+    @eq_comm _ D.size i]
+  split_ifs <;> ring
+
+/-! ### canonical sparse forms are unique -/
+
+theorem scoeff_head (t : Nat × F) (s : Terms F) (h : SCanon (t :: s)) : scoeff (t :: s) t.1 = t.2 := by
+  rw [scoeff_cons, scoeff_eq_zero_of_forall_ne]
+  · simp
+  · intro u hu; have := scanon_head_lt t s h u hu; omega
+
+theorem scoeff_below_head (t : Nat × F) (s : Terms F) (h : SCanon (t :: s)) (i : Nat) (hi : i < t.1) :
+    scoeff (t :: s) i = 0 := by
+  apply scoeff_eq_zero_of_forall_ne
+  intro u hu
+  rcases List.mem_cons.1 hu with rfl | hu
+  · omega
+  · have := scanon_head_lt t s h u hu; omega
+
+theorem scanon_ext (s t : Terms F) (hs : SCanon s) (ht : SCanon t)
+    (h : ∀ i, scoeff s i = scoeff t i) : s = t := by
+  induction s generalizing t with
+  | nil =>
+    cases t with
+    | nil => rfl
+    | cons u t =>
+      have := h u.1
+      rw [scoeff_head u t ht] at this
+      exact absurd this.symm (ht.2 u (by simp))
+  | cons a s ih =>
+    cases t with
+    | nil =>
+      have := h a.1
+      rw [scoeff_head a s hs] at this
+      exact absurd this (hs.2 a (by simp))
+    | cons u t =>
+      have ha := scoeff_head a s hs
+      have hu := scoeff_head u t ht
+      have hd : a.1 = u.1 := by
+        rcases Nat.lt_trichotomy a.1 u.1 with hlt | heq | hgt
+        · have := h a.1
+          rw [ha, scoeff_below_head u t ht a.1 hlt] at this
+          exact absurd this (hs.2 a (by simp))
+        · exact heq
+        · have := h u.1
+          rw [hu, scoeff_below_head a s hs u.1 hgt] at this
+          exact absurd this.symm (ht.2 u (by simp))
+      have hc : a.2 = u.2 := by
+        have := h a.1
+        rw [ha, hd, hu] at this; exact this
+      have hau : a = u := Prod.ext hd hc
+      subst hau
+      rw [ih t (scanon_tail a s hs) (scanon_tail a t ht) (fun i => by
+        have := h i
+        rw [scoeff_cons, scoeff_cons] at this
+        exact add_left_cancel this)]
+
+/-- explicit stored form of the vanishing polynomial of a non-trivial domain -/
+theorem vanishingPolynomial_eq (D : Domain F) (hn : D.size ≠ 0) (hh : D.offset ≠ 0) :
+    D.vanishingPolynomial = [(0, -(D.offset ^ D.size)), (D.size, 1)] := by
+  apply scanon_ext _ _ (vanishingPolynomial_spec D).1
+  · refine ⟨by simp; omega, ?_⟩
+    intro t ht
+    simp at ht
+    rcases ht with rfl | rfl
+    · simpa using pow_ne_zero _ hh
+    · simp
+  · intro i
+    rw [(vanishingPolynomial_spec D).2]
+    simp only [scoeff_cons, scoeff_nil, @eq_comm _ 0 i, @eq_comm _ D.size i]
+    split_ifs <;> ring
+
+/-! ## 4. sparse operators -/
+
+theorem scanon_append (r app : Terms F) (hr : SCanon r) (happ : SCanon app)
+    (hlt : ∀ u ∈ r, ∀ v ∈ app, u.1 < v.1) : SCanon (r ++ app) := by
+  refine ⟨List.pairwise_append.2 ⟨hr.1, happ.1, hlt⟩, ?_⟩
+  intro t ht
+  rcases List.mem_append.1 ht with ht | ht
+  · exact hr.2 t ht
+  · exact happ.2 t ht
+
+theorem scanon_snoc (r : Terms F) (d : Nat) (c : F) (hr : SCanon r) (hlt : ∀ u ∈ r, u.1 < d)
+    (hc : c ≠ 0) : SCanon (r ++ [(d, c)]) := by
+  apply scanon_append r _ hr
+  · exact ⟨by simp, by intro t ht; simp at ht; subst ht; exact hc⟩
+  · intro u hu v hv; simp at hv; subst hv; exact hlt u hu
+
+theorem sdeg_lt (r : Terms F) (d : Nat) (hlt : ∀ u ∈ r, u.1 < d) (h0 : r = [] → 0 < d) :
+    sdeg r < d := by
+  unfold sdeg
+  cases hl : r.getLast? with
+  | none => rw [List.getLast?_eq_none_iff] at hl; exact h0 hl
+  | some l => exact hlt l (List.mem_of_getLast? hl)
+
+theorem sAppendCoeffs_ok (r app : Terms F) (hr : SCanon r) (happ : SCanon app)
+    (hlt : ∀ u ∈ r, ∀ v ∈ app, u.1 < v.1) (h0 : r = [] → ∀ v ∈ app, 0 < v.1) :
+    sAppendCoeffs r app = .ok (r ++ app) ∧ SCanon (r ++ app) := by
+  refine ⟨?_, scanon_append r app hr happ hlt⟩
+  cases app with
+  | nil => simp [sAppendCoeffs]
+  | cons t app =>
+    have : sdeg r < t.1 := sdeg_lt r t.1 (fun u hu => hlt u hu t (by simp))
+      (fun h => h0 h t (by simp))
+    simp [sAppendCoeffs, sDegree_scanon r hr, this]
+
+theorem sAddLoop_nil_nil (fuel : Nat) (r : Terms F) : sAddLoop (fuel + 1) [] [] r = .ok r := rfl
+theorem sAddLoop_nil_cons (fuel : Nat) (t : Nat × F) (ts r : Terms F) :
+    sAddLoop (fuel + 1) [] (t :: ts) r = sAppendCoeffs r (t :: ts) := rfl
+theorem sAddLoop_cons_nil (fuel : Nat) (s : Nat × F) (ss r : Terms F) :
+    sAddLoop (fuel + 1) (s :: ss) [] r = sAppendCoeffs r (s :: ss) := rfl
+theorem sAddLoop_cons_cons (fuel : Nat) (ds dt : Nat) (cs ct : F) (s' t' r : Terms F) :
+    sAddLoop (fuel + 1) ((ds, cs) :: s') ((dt, ct) :: t') r =
+      if ds < dt then sAddLoop fuel s' ((dt, ct) :: t') (r ++ [(ds, cs)])
+      else if ds = dt then
+        sAddLoop fuel s' t' (if cs + ct = 0 then r else r ++ [(ds, cs + ct)])
+      else sAddLoop fuel ((ds, cs) :: s') t' (r ++ [(dt, ct)]) := rfl
+
+theorem sAddLoop_spec (fuel : Nat) (s t r : Terms F) (hs : SCanon s) (ht : SCanon t)
+    (hr : SCanon r) (hfuel : s.length + t.length < fuel)
+    (hrs : ∀ u ∈ r, ∀ v ∈ s, u.1 < v.1) (hrt : ∀ u ∈ r, ∀ v ∈ t, u.1 < v.1)
+    (h0 : r = [] → (s ≠ [] ∧ t ≠ []) ∨ ((∀ v ∈ s, 0 < v.1) ∧ ∀ v ∈ t, 0 < v.1)) :
+    ∃ r', sAddLoop fuel s t r = .ok r' ∧ SCanon r' ∧
+      ∀ i, scoeff r' i = scoeff r i + scoeff s i + scoeff t i := by
+  induction fuel generalizing s t r with
+  | zero => omega
+  | succ fuel ih =>
+    cases s with
+    | nil =>
+      cases t with
+      | nil => exact ⟨r, rfl, hr, fun i => by simp⟩
+      | cons t0 t' =>
+        rw [sAddLoop_nil_cons]
+        have := sAppendCoeffs_ok r (t0 :: t') hr ht hrt (fun h => by
+          rcases h0 h with h1 | h1
+          · exact absurd rfl h1.1
+          · exact h1.2)
+        exact ⟨_, this.1, this.2, fun i => by rw [scoeff_append]; simp⟩
+    | cons s0 s' =>
+      cases t with
+      | nil =>
+        rw [sAddLoop_cons_nil]
+        have := sAppendCoeffs_ok r (s0 :: s') hr hs hrs (fun h => by
+          rcases h0 h with h1 | h1
+          · exact absurd rfl h1.2
+          · exact h1.1)
+        exact ⟨_, this.1, this.2, fun i => by rw [scoeff_append]; simp⟩
+      | cons t0 t' =>
+        obtain ⟨ds, cs⟩ := s0
+        obtain ⟨dt, ct⟩ := t0
+        rw [sAddLoop_cons_cons]
+        have hs' := scanon_tail _ _ hs
+        have ht' := scanon_tail _ _ ht
+        have hsh := scanon_head_lt _ _ hs
+        have hth := scanon_head_lt _ _ ht
+        have hcs : cs ≠ 0 := hs.2 (ds, cs) (by simp)
+        have hct : ct ≠ 0 := ht.2 (dt, ct) (by simp)
+        simp only [List.length_cons] at hfuel
+        by_cases h1 : ds < dt
+        · rw [if_pos h1]
+          obtain ⟨r', e1, e2, e3⟩ := ih s' ((dt, ct) :: t') (r ++ [(ds, cs)]) hs' ht
+            (scanon_snoc r ds cs hr (fun u hu => hrs u hu (ds, cs) (by simp)) hcs)
+            (by simp only [List.length_cons]; omega)
+            (by
+              intro u hu v hv
+              rcases List.mem_append.1 hu with hu | hu
+              · exact hrs u hu v (by simp [hv])
+              · simp at hu; subst hu; exact hsh v hv)
+            (by
+              intro u hu v hv
+              rcases List.mem_append.1 hu with hu | hu
+              · exact hrt u hu v hv
+              · simp at hu; subst hu
+                rcases List.mem_cons.1 hv with rfl | hv
+                · exact h1
+                · have := hth v hv; simp only at this ⊢; omega)
+            (by intro h; simp at h)
+          refine ⟨r', e1, e2, fun i => ?_⟩
+          rw [e3]; simp only [scoeff_append, scoeff_cons, scoeff_nil]; ring
+        · rw [if_neg h1]
+          by_cases h2 : ds = dt
+          · rw [if_pos h2]
+            subst h2
+            have hnew : SCanon (if cs + ct = 0 then r else r ++ [(ds, cs + ct)]) := by
+              by_cases hsum : cs + ct = 0
+              · rw [if_pos hsum]; exact hr
+              · rw [if_neg hsum]
+                exact scanon_snoc r ds _ hr (fun u hu => hrs u hu (ds, cs) (by simp)) hsum
+            have hmem : ∀ u ∈ (if cs + ct = 0 then r else r ++ [(ds, cs + ct)]),
+                u ∈ r ∨ u.1 = ds := by
+              intro u hu
+              by_cases hsum : cs + ct = 0
+              · rw [if_pos hsum] at hu; exact Or.inl hu
+              · rw [if_neg hsum] at hu
+                rcases List.mem_append.1 hu with hu | hu
+                · exact Or.inl hu
+                · simp at hu; subst hu; exact Or.inr rfl
+            obtain ⟨r', e1, e2, e3⟩ := ih s' t' _ hs' ht' hnew (by omega)
+              (by
+                intro u hu v hv
+                rcases hmem u hu with hu | hu
+                · exact hrs u hu v (by simp [hv])
+                · rw [hu]; exact hsh v hv)
+              (by
+                intro u hu v hv
+                rcases hmem u hu with hu | hu
+                · exact hrt u hu v (by simp [hv])
+                · rw [hu]; exact hth v hv)
+              (by
+                intro _
+                refine Or.inr ⟨fun v hv => ?_, fun v hv => ?_⟩
+                · have := hsh v hv; simp only at this; omega
+                · have := hth v hv; simp only at this; omega)
+            refine ⟨r', e1, e2, fun i => ?_⟩
+            rw [e3]
+            by_cases hsum : cs + ct = 0
+            · rw [if_pos hsum]; simp only [scoeff_cons]
+              by_cases hi : ds = i
+              · simp only [hi, if_true]
+                have : ct = -cs := by rw [← sub_eq_zero]; rw [← hsum]; ring
+                rw [this]; ring
+              · simp only [hi, if_false]; ring
+            · rw [if_neg hsum]; simp only [scoeff_append, scoeff_cons, scoeff_nil]
+              by_cases hi : ds = i
+              · simp only [hi, if_true]; ring
+              · simp only [hi, if_false]; ring
+          · rw [if_neg h2]
+            have h3 : dt < ds := by omega
+            obtain ⟨r', e1, e2, e3⟩ := ih ((ds, cs) :: s') t' (r ++ [(dt, ct)]) hs ht'
+              (scanon_snoc r dt ct hr (fun u hu => hrt u hu (dt, ct) (by simp)) hct)
+              (by simp only [List.length_cons]; omega)
+              (by
+                intro u hu v hv
+                rcases List.mem_append.1 hu with hu | hu
+                · exact hrs u hu v hv
+                · simp at hu; subst hu
+                  rcases List.mem_cons.1 hv with rfl | hv
+                  · exact h3
+                  · have := hsh v hv; simp only at this ⊢; omega)
+              (by
+                intro u hu v hv
+                rcases List.mem_append.1 hu with hu | hu
+                · exact hrt u hu v (by simp [hv])
+                · simp at hu; subst hu; exact hth v hv)
+              (by intro h; simp at h)
+            refine ⟨r', e1, e2, fun i => ?_⟩
+            rw [e3]; simp only [scoeff_append, scoeff_cons, scoeff_nil]; ring
+
+/-- `&Sparse + &Sparse` on canonical operands -/
+theorem sAdd_spec (s t : Terms F) (hs : SCanon s) (ht : SCanon t) :
+    ∃ r, sAdd s t = .ok r ∧ SCanon r ∧ ∀ i, scoeff r i = scoeff s i + scoeff t i := by
+  unfold sAdd
+  by_cases hzs : sIsZero s = true
+  · rw [if_pos hzs]
+    exact ⟨t, rfl, ht, fun i => by rw [sIsZero_scoeff s hzs]; ring⟩
+  · rw [if_neg hzs]
+    by_cases hzt : sIsZero t = true
+    · rw [if_pos hzt]
+      exact ⟨s, rfl, hs, fun i => by rw [sIsZero_scoeff t hzt]; ring⟩
+    · rw [if_neg hzt]
+      have hs0 : s ≠ [] := fun h => hzs ((scanon_sIsZero s hs).2 h)
+      have ht0 : t ≠ [] := fun h => hzt ((scanon_sIsZero t ht).2 h)
+      obtain ⟨r', e1, e2, e3⟩ := sAddLoop_spec (s.length + t.length + 1) s t [] hs ht scanon_nil
+        (by omega) (by simp) (by simp) (fun _ => Or.inl ⟨hs0, ht0⟩)
+      exact ⟨r', e1, e2, fun i => by rw [e3]; simp⟩
+
+theorem sNeg_spec (s : Terms F) :
+    (SCanon s → SCanon (sNeg s)) ∧ ∀ i, scoeff (sNeg s) i = - scoeff s i := by
+  constructor
+  · intro hs
+    unfold sNeg
+    refine ⟨List.pairwise_map.2 (by simpa using hs.1), ?_⟩
+    intro t ht
+    obtain ⟨u, hu, rfl⟩ := List.mem_map.1 ht
+    simpa using hs.2 u hu
+  · intro i
+    unfold sNeg
+    induction s with
+    | nil => simp
+    | cons t s ih => simp only [List.map_cons, scoeff_cons, ih]; split_ifs <;> ring
+
+theorem scoeff_map_mul (s : Terms F) (f : F) (i : Nat) :
+    scoeff (s.map (fun u => (u.1, u.2 * f))) i = scoeff s i * f := by
+  induction s with
+  | nil => simp
+  | cons t s ih => simp only [List.map_cons, scoeff_cons, ih]; split_ifs <;> ring
+
+theorem sScale_spec (s : Terms F) (f : F) :
+    (SCanon s → SCanon (sScale s f)) ∧ (∀ i, scoeff (sScale s f) i = scoeff s i * f) ∧
+    (f = 0 → sScale s f = []) := by
+  refine ⟨?_, ?_, ?_⟩
+  · intro hs
+    unfold sScale
+    by_cases hz : (sIsZero s || decide (f = 0)) = true
+    · rw [if_pos hz]; exact scanon_nil
+    · rw [if_neg hz]
+      have hf : f ≠ 0 := by
+        intro h; apply hz; simp [h]
+      refine ⟨List.pairwise_map.2 (by simpa using hs.1), ?_⟩
+      intro t ht
+      obtain ⟨u, hu, rfl⟩ := List.mem_map.1 ht
+      exact mul_ne_zero (hs.2 u hu) hf
+  · intro i
+    unfold sScale
+    by_cases hz : (sIsZero s || decide (f = 0)) = true
+    · rw [if_pos hz]
+      rw [Bool.or_eq_true] at hz
+      rcases hz with hz | hz
+      · rw [sIsZero_scoeff s hz]; simp
+      · have : f = 0 := by simpa using hz
+        rw [this]; simp
+    · rw [if_neg hz, scoeff_map_mul]
+  · intro hf; unfold sScale; simp [hf]
+
+/-- `Sparse -= &Sparse` -/
+theorem sSubAssign_spec (s t : Terms F) (hs : SCanon s) (ht : SCanon t) :
+    ∃ r, sSubAssign s t = .ok r ∧ SCanon r ∧ ∀ i, scoeff r i = scoeff s i - scoeff t i := by
+  obtain ⟨r, e1, e2, e3⟩ := sAdd_spec s (sNeg t) hs ((sNeg_spec t).1 ht)
+  exact ⟨r, e1, e2, fun i => by rw [e3, (sNeg_spec t).2]; ring⟩
+
+/-- `Sparse += (f, &Sparse)`, every `f` including `0` -/
+theorem sAddAssignScaled_spec (s t : Terms F) (f : F) (hs : SCanon s) (ht : SCanon t) :
+    ∃ r, sAddAssignScaled s f t = .ok r ∧ SCanon r ∧
+      ∀ i, scoeff r i = scoeff s i + f * scoeff t i := by
+  obtain ⟨r, e1, e2, e3⟩ := sAdd_spec s (sScale t f) hs ((sScale_spec t f).1 ht)
+  exact ⟨r, e1, e2, fun i => by rw [e3, (sScale_spec t f).2.1]; ring⟩
+
+/-! ### `sEvaluate` -/
+
+theorem powWithTable_zero (fuel : Nat) (tbl : List F) (res : F) :
+    powWithTable fuel tbl 0 res = some res := by
+  cases fuel <;> simp [powWithTable]
+
+theorem powWithTable_squarings (fuel e k : Nat) (y res : F) (h1 : e < fuel)
+    (h2 : e < 2 ^ (k + 1)) :
+    powWithTable fuel (squarings y k) e res = some (res * y ^ e) := by
+  induction fuel generalizing e k y res with
+  | zero => omega
+  | succ fuel ih =>
+    unfold powWithTable
+    by_cases he : e = 0
+    · simp [he]
+    · rw [if_neg he]
+      have hdiv : e / 2 < fuel := by omega
+      by_cases hodd : e % 2 = 1
+      · rw [if_pos hodd]
+        cases k with
+        | zero =>
+          have : e = 1 := by simp at h2; omega
+          subst this; simp [squarings, powWithTable_zero]
+        | succ k =>
+          simp only [squarings]
+          rw [pow_succ] at h2
+          rw [ih (e / 2) k (y * y) (res * y) hdiv (by omega)]
+          congr 1
+          have : e = 2 * (e / 2) + 1 := by omega
+          conv_rhs => rw [this]
+          rw [pow_succ, pow_mul]; ring
+      · rw [if_neg hodd]
+        cases k with
+        | zero => simp at h2; omega
+        | succ k =>
+          simp only [squarings, List.tail_cons]
+          rw [pow_succ] at h2
+          rw [ih (e / 2) k (y * y) res hdiv (by omega)]
+          congr 1
+          have : e = 2 * (e / 2) := by omega
+          conv_rhs => rw [this]
+          rw [pow_mul]; ring
+
+theorem lt_two_pow_bitLen (d : Nat) : d < 2 ^ (Poly.bitLen d - 1 + 1) := by
+  unfold Poly.bitLen
+  by_cases h : d = 0
+  · simp [h]
+  · rw [if_neg h]; simpa using Nat.lt_log2_self
+
+theorem sEvaluate_fold (x : F) (k : Nat) (u : Terms F) (acc : F) (h : ∀ t ∈ u, t.1 < 2 ^ (k + 1)) :
+    foldTerms (fun (acc : F) t =>
+      match powWithTable (t.1 + 1) (squarings x k) t.1 1 with
+      | some pw => .ok (acc + t.2 * pw)
+      | none => .panic) u acc = .ok (acc + (u.map (fun t => t.2 * x ^ t.1)).sum) := by
+  induction u generalizing acc with
+  | nil => simp [foldTerms]
+  | cons t u ih =>
+    rw [foldTerms]
+    rw [powWithTable_squarings (t.1 + 1) t.1 k x 1 (by omega) (h t (by simp))]
+    simp only
+    rw [ih _ (fun v hv => h v (by simp [hv]))]
+    simp only [List.map_cons, List.sum_cons]; congr 1; ring
+
+/-- `Polynomial::evaluate` (sparse) on a canonical operand: `Σ c·x^d`, never panics -/
+theorem sEvaluate_spec (s : Terms F) (x : F) (hs : SCanon s) :
+    sEvaluate s x = .ok ((s.map (fun t => t.2 * x ^ t.1)).sum) := by
+  unfold sEvaluate
+  by_cases hz : sIsZero s = true
+  · rw [if_pos hz, (scanon_sIsZero s hs).1 hz]; rfl
+  · rw [if_neg hz, sDegree_scanon s hs]
+    simp only [ok_bind]
+    have h := sEvaluate_fold x (Poly.bitLen (sdeg s) - 1) s 0 (fun t ht =>
+      Nat.lt_of_le_of_lt (scanon_le_sdeg s hs t ht) (lt_two_pow_bitLen (sdeg s)))
+    rw [zero_add] at h
+    exact h
+
+/-! ## 5. conversions and mixed dense / sparse operators -/
+
+theorem length_resize (p : List F) (n : Nat) : (resize p n).length = n := by
+  unfold resize; simp only [List.length_append, List.length_take, List.length_replicate]; omega
+
+theorem coeffB_resize (p : List F) (n i : Nat) :
+    coeffB (resize p n) i = if i < n then coeffB p i else 0 := by
+  unfold resize
+  rw [coeffB_append, coeffB_take, coeffB_replicate_zero, List.length_take]
+  by_cases h1 : i < min n p.length
+  · rw [if_pos h1]
+  · rw [if_neg h1]
+    by_cases h2 : i < n
+    · rw [if_pos h2, coeffB_of_le p i (by omega)]
+    · rw [if_neg h2]
+
+/-- the "overwrite" loop of `sparseToDense` / `addAssignDS` on distinct degrees -/
+theorem foldTerms_set (s : Terms F) (r0 : List F) (hs : s.Pairwise (fun a b => a.1 < b.1))
+    (hlen : ∀ t ∈ s, t.1 < r0.length) (hz : ∀ t ∈ s, coeffB r0 t.1 = 0) :
+    ∃ r, foldTerms (fun (r : List F) t => modifyAt (fun _ => t.2) r t.1) s r0 = .ok r ∧
+      r.length = r0.length ∧ ∀ i, coeffB r i = coeffB r0 i + scoeff s i := by
+  induction s generalizing r0 with
+  | nil => exact ⟨r0, rfl, rfl, fun i => by simp⟩
+  | cons t s ih =>
+    obtain ⟨r1, e1, e2, e3⟩ := modifyAt_ok (fun _ => t.2) r0 t.1 (hlen t (by simp))
+    have hp := List.pairwise_cons.1 hs
+    obtain ⟨r, f1, f2, f3⟩ := ih r1 hp.2 (fun u hu => by rw [e2]; exact hlen u (by simp [hu]))
+      (fun u hu => by
+        rw [e3, if_neg (by have := hp.1 u hu; omega)]
+        exact hz u (by simp [hu]))
+    refine ⟨r, ?_, by rw [f2, e2], fun i => ?_⟩
+    · rw [foldTerms, e1]; exact f1
+    · rw [f3, e3, scoeff_cons]
+      by_cases hi : i = t.1
+      · subst hi; rw [if_pos rfl, if_pos rfl, hz t (by simp)]; ring
+      · rw [if_neg hi, if_neg (fun h => hi h.symm)]; ring
+
+/-- the loop of `Dense += &Sparse`: add inside the old vector, overwrite in the zero extension -/
+theorem foldTerms_addset (lhs : Nat) (s : Terms F) (r0 : List F)
+    (hs : s.Pairwise (fun a b => a.1 < b.1))
+    (hlen : ∀ t ∈ s, t.1 < r0.length) (hz : ∀ t ∈ s, lhs < t.1 → coeffB r0 t.1 = 0) :
+    ∃ r, foldTerms (fun (r : List F) t =>
+        if t.1 ≤ lhs then modifyAt (fun c => c + t.2) r t.1
+        else modifyAt (fun _ => t.2) r t.1) s r0 = .ok r ∧
+      r.length = r0.length ∧ ∀ i, coeffB r i = coeffB r0 i + scoeff s i := by
+  induction s generalizing r0 with
+  | nil => exact ⟨r0, rfl, rfl, fun i => by simp⟩
+  | cons t s ih =>
+    have hp := List.pairwise_cons.1 hs
+    have key : ∃ r1, (if t.1 ≤ lhs then modifyAt (fun c => c + t.2) r0 t.1
+        else modifyAt (fun _ => t.2) r0 t.1) = .ok r1 ∧ r1.length = r0.length ∧
+        ∀ j, coeffB r1 j = if j = t.1 then coeffB r0 t.1 + t.2 else coeffB r0 j := by
+      by_cases hle : t.1 ≤ lhs
+      · rw [if_pos hle]
+        exact modifyAt_ok (fun c => c + t.2) r0 t.1 (hlen t (by simp))
+      · rw [if_neg hle]
+        obtain ⟨r1, e1, e2, e3⟩ := modifyAt_ok (fun _ => t.2) r0 t.1 (hlen t (by simp))
+        refine ⟨r1, e1, e2, fun j => ?_⟩
+        rw [e3, hz t (by simp) (by omega), zero_add]
+    obtain ⟨r1, e1, e2, e3⟩ := key
+    obtain ⟨r, f1, f2, f3⟩ := ih r1 hp.2 (fun u hu => by rw [e2]; exact hlen u (by simp [hu]))
+      (fun u hu hl => by
+        rw [e3, if_neg (by have := hp.1 u hu; omega)]
+        exact hz u (by simp [hu]) hl)
+    refine ⟨r, ?_, by rw [f2, e2], fun i => ?_⟩
+    · rw [foldTerms, e1]; exact f1
+    · rw [f3, e3, scoeff_cons]
+      by_cases hi : i = t.1
+      · subst hi; rw [if_pos rfl, if_pos rfl]; ring
+      · rw [if_neg hi, if_neg (fun h => hi h.symm)]; ring
+
+theorem sparseToDense_core (s : Terms F) (hs : SCanon s) :
+    ∃ r, foldTerms (fun (r : List F) t => modifyAt (fun _ => t.2) r t.1) s
+        (List.replicate (sdeg s + 1) 0) = .ok r ∧
+      r.length = sdeg s + 1 ∧ ∀ i, coeffB r i = scoeff s i := by
+  obtain ⟨r, e1, e2, e3⟩ := foldTerms_set s (List.replicate (sdeg s + 1) 0) hs.1
+    (fun t ht => by have := scanon_le_sdeg s hs t ht; simp; omega) (fun t ht => by simp)
+  exact ⟨r, e1, by simpa using e2, fun i => by rw [e3]; simp⟩
+
+/-- `From<SparsePolynomial> for DensePolynomial` on a canonical operand -/
+theorem sparseToDense_spec (s : Terms F) (hs : SCanon s) :
+    ∃ r, sparseToDense s = .ok r ∧ CanonB r ∧ (∀ i, coeffB r i = scoeff s i) ∧
+      r.length ≤ sdeg s + 1 := by
+  obtain ⟨r, e1, e2, e3⟩ := sparseToDense_core s hs
+  refine ⟨truncate r, ?_, truncate_canon r, fun i => by rw [coeffB_truncate, e3], ?_⟩
+  · unfold sparseToDense
+    rw [sDegree_scanon s hs]
+    simp only [ok_bind, e1, pure_ok, fromCoefficientsVec]
+  · rw [← e2]; exact truncate_length_le r
+
+/-! ### `&Dense + &Sparse` -/
+
+/-- loop body of `&Dense + &Sparse` -/
+def addStep (r : List F) (t : Nat × F) : List F :=
+  match modifyAt (fun c => c + t.2) r t.1 with
+  | .ok r' => r'
+  | .panic => r ++ List.replicate (t.1 - r.length) 0 ++ [t.2]
+
+theorem coeffB_addStep (r : List F) (t : Nat × F) (i : Nat) :
+    coeffB (addStep r t) i = coeffB r i + if t.1 = i then t.2 else 0 := by
+  unfold addStep
+  by_cases h : t.1 < r.length
+  · obtain ⟨r', e1, _, e3⟩ := modifyAt_ok (fun c => c + t.2) r t.1 h
+    rw [e1]; simp only; rw [e3]
+    by_cases hi : i = t.1
+    · subst hi; simp
+    · rw [if_neg hi, if_neg (fun h => hi h.symm)]; ring
+  · rw [modifyAt_panic _ r t.1 (by omega)]; simp only
+    have hE : ∀ j, coeffB (r ++ List.replicate (t.1 - r.length) (0 : F)) j = coeffB r j := by
+      intro j; rw [coeffB_append]
+      by_cases hj : j < r.length
+      · rw [if_pos hj]
+      · rw [if_neg hj, coeffB_replicate_zero, coeffB_of_le r j (by omega)]
+    rw [coeffB_append, hE]
+    simp only [List.length_append, List.length_replicate]
+    have hl : r.length + (t.1 - r.length) = t.1 := by omega
+    rw [hl]
+    by_cases h1 : i < t.1
+    · rw [if_pos h1, if_neg (by omega)]; ring
+    · rw [if_neg h1, coeffB_of_le r i (by omega)]
+      by_cases h3 : t.1 = i
+      · rw [if_pos h3, h3]; simp
+      · rw [if_neg h3]
+        obtain ⟨d, hd⟩ : ∃ d, i - t.1 = d + 1 := ⟨i - t.1 - 1, by omega⟩
+        rw [hd]; simp
+
+theorem coeffB_foldl_addStep (s : Terms F) (a : List F) (i : Nat) :
+    coeffB (s.foldl addStep a) i = coeffB a i + scoeff s i := by
+  induction s generalizing a with
+  | nil => simp
+  | cons t s ih => rw [List.foldl_cons, ih, coeffB_addStep, scoeff_cons]; ring
+
+/-- `&Dense + &Sparse` -/
+theorem addDS_spec (a : List F) (s : Terms F) (ha : CanonB a) (hs : SCanon s) :
+    ∃ r, addDS a s = .ok r ∧ CanonB r ∧ ∀ i, coeffB r i = coeffB a i + scoeff s i := by
+  unfold addDS
+  by_cases hza : Poly.isZero a = true
+  · rw [if_pos hza]
+    obtain ⟨r, e1, e2, e3, _⟩ := sparseToDense_spec s hs
+    exact ⟨r, e1, e2, fun i => by rw [e3, isZero_coeffB a hza]; ring⟩
+  · rw [if_neg hza]
+    by_cases hzs : sIsZero s = true
+    · rw [if_pos hzs]
+      exact ⟨a, rfl, ha, fun i => by rw [sIsZero_scoeff s hzs]; ring⟩
+    · rw [if_neg hzs, sDegree_scanon s hs, degree_canon a ha]
+      simp only [ok_bind, pure_ok]
+      exact ⟨_, rfl, truncate_canon _, fun i => by
+        rw [coeffB_truncate]; exact coeffB_foldl_addStep s a i⟩
+
+/-- `Dense += &Sparse` -/
+theorem addAssignDS_spec (a : List F) (s : Terms F) (ha : CanonB a) (hs : SCanon s) :
+    ∃ r, addAssignDS a s = .ok r ∧ CanonB r ∧ ∀ i, coeffB r i = coeffB a i + scoeff s i := by
+  unfold addAssignDS
+  by_cases hzs : sIsZero s = true
+  · rw [if_pos hzs]
+    exact ⟨a, rfl, ha, fun i => by rw [sIsZero_scoeff s hzs]; ring⟩
+  · rw [if_neg hzs]
+    by_cases hza : Poly.isZero a = true
+    · rw [if_pos hza, sDegree_scanon s hs]
+      obtain ⟨r, e1, e2, e3⟩ := sparseToDense_core s hs
+      simp only [ok_bind, e1, pure_ok]
+      exact ⟨_, rfl, truncate_canon _, fun i => by
+        rw [coeffB_truncate, e3, isZero_coeffB a hza]; ring⟩
+    · rw [if_neg hza, sDegree_scanon s hs, degree_canon a ha]
+      simp only [ok_bind]
+      have ha0 : a ≠ [] := fun h => hza ((canon_isZero a ha).2 h)
+      have hlen : 0 < a.length := List.length_pos_of_ne_nil ha0
+      obtain ⟨r, e1, e2, e3⟩ := foldTerms_addset (a.length - 1) s
+        (resize a (max (a.length - 1) (sdeg s) + 1)) hs.1
+        (fun t ht => by
+          rw [length_resize]; have := scanon_le_sdeg s hs t ht; omega)
+        (fun t ht hl => by
+          rw [coeffB_resize, coeffB_of_le a t.1 (by omega)]; simp)
+      rw [e1]
+      simp only [ok_bind, pure_ok]
+      refine ⟨_, rfl, truncate_canon _, fun i => ?_⟩
+      rw [coeffB_truncate, e3, coeffB_resize]
+      by_cases hi : i < max (a.length - 1) (sdeg s) + 1
+      · rw [if_pos hi]
+      · rw [if_neg hi, coeffB_of_le a i (by omega)]
+
+/-! ### `&Dense - &Sparse`, `Dense -= &Sparse` -/
+
+/-- loop body of `subSparseLoop` -/
+def subStep (r : List F) (t : Nat × F) : List F :=
+  match modifyAt (fun c => c - t.2) r t.1 with
+  | .ok r' => r'
+  | .panic => resize r t.1 ++ [-t.2]
+
+theorem coeffB_subStep (r : List F) (t : Nat × F) (i : Nat) :
+    coeffB (subStep r t) i = coeffB r i - if t.1 = i then t.2 else 0 := by
+  unfold subStep
+  by_cases h : t.1 < r.length
+  · obtain ⟨r', e1, _, e3⟩ := modifyAt_ok (fun c => c - t.2) r t.1 h
+    rw [e1]; simp only; rw [e3]
+    by_cases hi : i = t.1
+    · subst hi; simp
+    · rw [if_neg hi, if_neg (fun h => hi h.symm)]; ring
+  · rw [modifyAt_panic _ r t.1 (by omega)]; simp only
+    rw [coeffB_append, length_resize, coeffB_resize]
+    by_cases h1 : i < t.1
+    · rw [if_pos h1, if_pos h1, if_neg (by omega)]; ring
+    · rw [if_neg h1, coeffB_of_le r i (by omega)]
+      by_cases h3 : t.1 = i
+      · rw [if_pos h3, h3]; simp
+      · rw [if_neg h3]
+        obtain ⟨d, hd⟩ : ∃ d, i - t.1 = d + 1 := ⟨i - t.1 - 1, by omega⟩
+        rw [hd]; simp
+
+theorem coeffB_subSparseLoop (s : Terms F) (a : List F) (i : Nat) :
+    coeffB (subSparseLoop a s) i = coeffB a i - scoeff s i := by
+  have : ∀ a : List F, coeffB (s.foldl subStep a) i = coeffB a i - scoeff s i := by
+    induction s with
+    | nil => intro a; simp
+    | cons t s ih => intro a; rw [List.foldl_cons, ih, coeffB_subStep, scoeff_cons]; ring
+  exact this a
+
+/-- `Dense -= &Sparse`: total (no hypotheses needed for the coefficient law) -/
+theorem subAssignDS_spec (a : List F) (s : Terms F) :
+    CanonB (subAssignDS a s) ∧ ∀ i, coeffB (subAssignDS a s) i = coeffB a i - scoeff s i := by
+  unfold subAssignDS
+  exact ⟨truncate_canon _, fun i => by rw [coeffB_truncate, coeffB_subSparseLoop]⟩
+
+/-- `&Dense - &Sparse` -/
+theorem subDS_spec (a : List F) (s : Terms F) (ha : CanonB a) (hs : SCanon s) :
+    ∃ r, subDS a s = .ok r ∧ CanonB r ∧ ∀ i, coeffB r i = coeffB a i - scoeff s i := by
+  unfold subDS
+  by_cases hza : Poly.isZero a = true
+  · rw [if_pos hza]
+    obtain ⟨r, e1, e2, e3, _⟩ := sparseToDense_spec (sNeg s) ((sNeg_spec s).1 hs)
+    exact ⟨r, e1, e2, fun i => by rw [e3, (sNeg_spec s).2, isZero_coeffB a hza]; ring⟩
+  · rw [if_neg hza]
+    by_cases hzs : sIsZero s = true
+    · rw [if_pos hzs]
+      exact ⟨a, rfl, ha, fun i => by rw [sIsZero_scoeff s hzs]; ring⟩
+    · rw [if_neg hzs]
+      exact ⟨_, rfl, truncate_canon _, fun i => by rw [coeffB_truncate, coeffB_subSparseLoop]⟩
+
+/-! ## 6. evaluation over a domain, interpolation -/
+
+/-- `Σ_{i < len} coeff p i · x^i` -/
+def peval (p : List F) (x : F) : F := ∑ i ∈ Finset.range p.length, coeffB p i * x ^ i
+
+@[simp] theorem horner_nil (x : F) : horner ([] : List F) x = 0 := rfl
+@[simp] theorem horner_cons (c : F) (cs : List F) (x : F) :
+    horner (c :: cs) x = horner cs x * x + c := rfl
+
+theorem horner_eq_peval (p : List F) (x : F) : horner p x = peval p x := by
+  induction p with
+  | nil => simp [peval]
+  | cons c cs ih =>
+    rw [horner_cons, ih]
+    unfold peval
+    rw [List.length_cons, Finset.sum_range_succ', Finset.sum_mul]
+    simp only [coeffB_cons_succ, coeffB_cons_zero, pow_zero, mul_one, pow_succ]
+    congr 1
+    apply Finset.sum_congr rfl; intros; ring
+
+theorem horner_append (p q : List F) (x : F) :
+    horner (p ++ q) x = horner p x + x ^ p.length * horner q x := by
+  induction p with
+  | nil => simp
+  | cons c cs ih => simp only [List.cons_append, horner_cons, ih, List.length_cons, pow_succ]; ring
+
+@[simp] theorem horner_replicate_zero (n : Nat) (x : F) : horner (List.replicate n (0 : F)) x = 0 := by
+  induction n with
+  | zero => rfl
+  | succ n ih => simp [List.replicate_succ, ih]
+
+theorem horner_resize (p : List F) (n : Nat) (x : F) :
+    horner (resize p n) x = horner (p.take n) x := by
+  unfold resize; rw [horner_append]; simp
+
+theorem horner_isZero (p : List F) (x : F) (h : Poly.isZero p = true) : horner p x = 0 := by
+  rw [isZero_iff] at h
+  induction p with
+  | nil => rfl
+  | cons c cs ih =>
+    rw [horner_cons, ih (fun d hd => h d (by simp [hd])), h c (by simp)]; ring
+
+theorem length_zipInto (f : F → F → F) (a b : List F) : (zipInto f a b).length = a.length := by
+  induction a generalizing b with
+  | nil => simp [zipInto]
+  | cons x xs ih =>
+    cases b with
+    | nil => simp [zipInto]
+    | cons y ys => simp [zipInto, ih]
+
+theorem horner_zipInto (f : F → F → F) (op : F) (hf : ∀ a b, f a b = a + op * b)
+    (first ch : List F) (x : F) (h : ch.length ≤ first.length) :
+    horner (zipInto f first ch) x = horner first x + op * horner ch x := by
+  induction first generalizing ch with
+  | nil =>
+    cases ch with
+    | nil => simp [zipInto]
+    | cons _ _ => simp at h
+  | cons a as ih =>
+    cases ch with
+    | nil => simp [zipInto]
+    | cons b bs =>
+      simp only [zipInto, horner_cons, hf]
+      rw [ih bs (by simpa using h)]; ring
+
+/-- weighted sum of the chunk values: `Σ_j c^(i+j) · chunk_j(x)` -/
+def evalChunks (x c : F) : Nat → List (List F) → F
+  | _, [] => 0
+  | i, ch :: chs => c ^ i * horner ch x + evalChunks x c (i + 1) chs
+
+theorem chunksOf_nil (n fuel : Nat) : chunksOf n fuel ([] : List F) = [] := by
+  cases fuel <;> simp [chunksOf]
+
+theorem chunksOf_cons (n fuel : Nat) (l : List F) (h : l ≠ []) :
+    chunksOf n (fuel + 1) l = l.take n :: chunksOf n fuel (l.drop n) := by
+  rw [chunksOf]; simp [h]
+
+theorem horner_take_drop (n : Nat) (l : List F) (x : F) :
+    horner l x = horner (l.take n) x + x ^ (min n l.length) * horner (l.drop n) x := by
+  conv_lhs => rw [← List.take_append_drop n l]
+  rw [horner_append, List.length_take]
+
+/-- splitting into chunks of `n` and weighting chunk `j` by `(x^n)^j` is evaluation -/
+theorem evalChunks_chunksOf (n : Nat) (hn : 0 < n) (x c : F) (hx : x ^ n = c) (fuel : Nat)
+    (l : List F) (i : Nat) (hl : l.length ≤ fuel) :
+    evalChunks x c i (chunksOf n fuel l) = c ^ i * horner l x := by
+  induction fuel generalizing l i with
+  | zero =>
+    have : l = [] := List.length_eq_zero_iff.1 (by omega)
+    subst this; simp [chunksOf, evalChunks]
+  | succ fuel ih =>
+    by_cases hne : l = []
+    · subst hne; rw [chunksOf_nil]; simp [evalChunks]
+    · rw [chunksOf_cons n fuel l hne, evalChunks]
+      have hlen : 0 < l.length := List.length_pos_of_ne_nil hne
+      rw [ih (l.drop n) (i + 1) (by rw [List.length_drop]; omega), horner_take_drop n l x]
+      by_cases hle : n ≤ l.length
+      · rw [Nat.min_eq_left hle, hx]; ring
+      · have : l.drop n = [] := List.drop_eq_nil_of_le (by omega)
+        rw [this]; simp
+
+theorem chunksOf_length_le (n fuel : Nat) (l : List F) :
+    ∀ ch ∈ chunksOf n fuel l, ch.length ≤ n := by
+  induction fuel generalizing l with
+  | zero => simp [chunksOf]
+  | succ fuel ih =>
+    by_cases hne : l = []
+    · subst hne; rw [chunksOf_nil]; simp
+    · rw [chunksOf_cons n fuel l hne]
+      intro ch hch
+      rcases List.mem_cons.1 hch with rfl | hch
+      · rw [List.length_take]; omega
+      · exact ih _ ch hch
+
+theorem foldChunks_spec (D : Domain F) (x : F) (hx : x ^ D.size = D.offset ^ D.size) (i : Nat)
+    (first : List F) (chs : List (List F)) (hlen : ∀ ch ∈ chs, ch.length ≤ first.length) :
+    horner (foldChunks D i first chs) x
+      = horner first x + evalChunks x (D.offset ^ D.size) (i + 1) chs ∧
+    (foldChunks D i first chs).length = first.length := by
+  induction chs generalizing i first with
+  | nil => simp [foldChunks, evalChunks]
+  | cons ch chs ih =>
+    rw [foldChunks]
+    simp only
+    have hch : ch.length ≤ first.length := hlen ch (by simp)
+    have key : ∃ first', (if D.offset = 1 then zipInto (· + ·) first ch
+        else zipInto (fun x y => x + Poly.pow D.offset ((i + 1) * D.size) * y) first ch) = first' ∧
+        first'.length = first.length ∧
+        horner first' x = horner first x + (D.offset ^ D.size) ^ (i + 1) * horner ch x := by
+      by_cases h1 : D.offset = 1
+      · rw [if_pos h1]
+        refine ⟨_, rfl, length_zipInto _ _ _, ?_⟩
+        rw [horner_zipInto (· + ·) 1 (fun a b => by ring) first ch x hch, h1]; simp
+      · rw [if_neg h1]
+        refine ⟨_, rfl, length_zipInto _ _ _, ?_⟩
+        rw [horner_zipInto _ (Poly.pow D.offset ((i + 1) * D.size)) (fun a b => rfl) first ch x hch,
+          pow_eq, pow_mul']
+    obtain ⟨first', e1, e2, e3⟩ := key
+    rw [e1]
+    have := ih (i + 1) first' (fun c hc => by rw [e2]; exact hlen c (by simp [hc]))
+    refine ⟨?_, by rw [this.2, e2]⟩
+    rw [this.1, e3, evalChunks]; ring
+
+theorem elementsAux_eq (g : F) (n : Nat) (cur : F) :
+    elementsAux g n cur = (List.range n).map (fun k => cur * g ^ k) := by
+  induction n generalizing cur with
+  | zero => rfl
+  | succ n ih =>
+    rw [elementsAux, ih, List.range_succ_eq_map, List.map_cons, List.map_map]
+    simp only [pow_zero, mul_one, List.cons.injEq, true_and]
+    apply List.map_congr_left
+    intro k _
+    simp only [Function.comp, pow_succ]; ring
+
+theorem elements_eq (D : Domain F) :
+    D.elements = (List.range D.size).map (fun k => D.offset * D.gen ^ k) := by
+  unfold Domain.elements; rw [elementsAux_eq]
+
+theorem fftInPlace_eq (D : Domain F) (v : List F) :
+    fftInPlace D v
+      = (List.range D.size).map (fun k => horner (v.take D.size) (D.offset * D.gen ^ k)) := by
+  unfold fftInPlace
+  simp only
+  rw [elements_eq, List.map_map]
+  apply List.map_congr_left
+  intro k _
+  simp only [Function.comp]
+  by_cases h : v.length * 4 ≤ D.size
+  · rw [if_pos h, List.take_of_length_le (by omega)]
+  · rw [if_neg h, horner_resize]
+
+theorem point_pow (D : Domain F) (hg : D.gen ^ D.size = 1) (k : Nat) :
+    (D.offset * D.gen ^ k) ^ D.size = D.offset ^ D.size := by
+  rw [mul_pow, ← pow_mul, mul_comm k, pow_mul, hg, one_pow, mul_one]
+
+/-- the folded first chunk has the same values on the coset as the whole vector -/
+theorem fold_value (D : Domain F) (hn : D.size ≠ 0) (x : F) (hx : x ^ D.size = D.offset ^ D.size)
+    (a : List F) (ha : a ≠ []) :
+    ∃ first rest, chunksOf D.size a.length a = first :: rest ∧ first = a.take D.size ∧
+      (foldChunks D 0 first rest).length = min D.size a.length ∧
+      horner (foldChunks D 0 first rest) x = horner a x := by
+  obtain ⟨k, hk⟩ : ∃ k, a.length = k + 1 :=
+    ⟨a.length - 1, by have := List.length_pos_of_ne_nil ha; omega⟩
+  refine ⟨a.take D.size, chunksOf D.size k (a.drop D.size), ?_, rfl, ?_, ?_⟩
+  · rw [hk, chunksOf_cons _ _ _ ha]
+  all_goals
+    have hlen : ∀ ch ∈ chunksOf D.size k (a.drop D.size), ch.length ≤ (a.take D.size).length := by
+      intro ch hch
+      by_cases hle : a.length ≤ D.size
+      · rw [List.drop_eq_nil_of_le hle, chunksOf_nil] at hch; simp at hch
+      · have := chunksOf_length_le _ _ _ ch hch
+        rw [List.length_take]; omega
+    have hf := foldChunks_spec D x hx 0 (a.take D.size) _ hlen
+  · rw [hf.2, List.length_take]
+  · rw [hf.1]
+    have := evalChunks_chunksOf D.size (by omega) x (D.offset ^ D.size) hx (k + 1) a 0 (by omega)
+    rw [chunksOf_cons _ _ _ ha, evalChunks] at this
+    simp only [pow_zero, one_mul, Nat.zero_add] at this
+    exact this
+
+theorem replicate_zero_eq (n : Nat) (f : Nat → F) (h : ∀ k, f k = 0) :
+    List.replicate n (0 : F) = (List.range n).map f := by
+  have : (List.range n).map f = (List.range n).map (fun _ => (0 : F)) :=
+    List.map_congr_left (fun k _ => h k)
+  rw [this, List.map_const', List.length_range]
+
+/-- `eval_over_domain_helper` (borrowed dense operand), any operand length -/
+theorem evaluateOverDomainRef_spec (D : Domain F) (a : List F) (hn : D.size ≠ 0)
+    (hg : D.gen ^ D.size = 1) :
+    evaluateOverDomainRef D a
+      = .ok ((List.range D.size).map (fun k => peval a (D.offset * D.gen ^ k))) := by
+  unfold evaluateOverDomainRef
+  by_cases hz : Poly.isZero a = true
+  · rw [if_pos hz]
+    congr 1
+    exact replicate_zero_eq _ _ (fun k => by rw [← horner_eq_peval, horner_isZero a _ hz])
+  · rw [if_neg hz, if_neg hn]
+    have ha : a ≠ [] := by intro h; subst h; exact hz rfl
+    obtain ⟨first, rest, e1, e2, e3, _⟩ := fold_value D hn (D.offset) rfl a ha
+    rw [e1]; simp only
+    rw [fftInPlace_eq]
+    congr 1
+    apply List.map_congr_left
+    intro k _
+    obtain ⟨first', rest', e1', _, _, e4'⟩ :=
+      fold_value D hn (D.offset * D.gen ^ k) (point_pow D hg k) a ha
+    rw [e1] at e1'
+    obtain ⟨rfl, rfl⟩ : first = first' ∧ rest = rest' := by simpa using e1'
+    rw [List.take_of_length_le (by rw [e3]; omega), e4', horner_eq_peval]
+
+/-- `eval_over_domain_helper` (owned dense operand), any operand length -/
+theorem evaluateOverDomainOwned_spec (D : Domain F) (a : List F) (hn : D.size ≠ 0)
+    (hg : D.gen ^ D.size = 1) :
+    evaluateOverDomainOwned D a
+      = .ok ((List.range D.size).map (fun k => peval a (D.offset * D.gen ^ k))) := by
+  unfold evaluateOverDomainOwned
+  by_cases hz : Poly.isZero a = true
+  · rw [if_pos hz]
+    congr 1
+    exact replicate_zero_eq _ _ (fun k => by rw [← horner_eq_peval, horner_isZero a _ hz])
+  · rw [if_neg hz, if_neg hn]
+    have ha : a ≠ [] := by intro h; subst h; exact hz rfl
+    obtain ⟨first, rest, e1, e2, e3, _⟩ := fold_value D hn (D.offset) rfl a ha
+    rw [e1]; simp only
+    rw [fftInPlace_eq]
+    congr 1
+    apply List.map_congr_left
+    intro k _
+    obtain ⟨first', rest', e1', _, _, e4'⟩ :=
+      fold_value D hn (D.offset * D.gen ^ k) (point_pow D hg k) a ha
+    rw [e1] at e1'
+    obtain ⟨rfl, rfl⟩ : first = first' ∧ rest = rest' := by simpa using e1'
+    have : (foldChunks D 0 first rest ++ a.drop D.size).take D.size = foldChunks D 0 first rest := by
+      by_cases hle : a.length ≤ D.size
+      · rw [List.drop_eq_nil_of_le hle, List.append_nil, List.take_of_length_le (by rw [e3]; omega)]
+      · exact List.take_left' (by rw [e3]; omega)
+    rw [this, e4', horner_eq_peval]
+
+/-- `eval_over_domain_helper` (sparse operand) -/
+theorem sEvaluateOverDomain_spec (D : Domain F) (s : Terms F) (hs : SCanon s) :
+    sEvaluateOverDomain D s = .ok ((List.range D.size).map
+      (fun k => (s.map (fun t => t.2 * (D.offset * D.gen ^ k) ^ t.1)).sum)) := by
+  unfold sEvaluateOverDomain
+  rw [elements_eq]
+  generalize List.range D.size = l
+  induction l with
+  | nil => rfl
+  | cons k l ih =>
+    simp only [List.map_cons, List.foldr_cons]
+    rw [ih, sEvaluate_spec s _ hs]
+    rfl
+
+theorem length_ifftInPlace (D : Domain F) (ev : List F) : (ifftInPlace D ev).length = D.size := by
+  unfold ifftInPlace; simp
+
+/-- `Evaluations::interpolate`: canonical, fewer than `size + 1` coefficients -/
+theorem interpolate_spec (D : Domain F) (ev : List F) :
+    CanonB (interpolate D ev) ∧ (interpolate D ev).length ≤ D.size := by
+  unfold interpolate fromCoefficientsVec
+  refine ⟨truncate_canon _, ?_⟩
+  have := truncate_length_le (ifftInPlace D ev)
+  rwa [length_ifftInPlace] at this
+
+/-! ## 7. `divide_with_q_and_r` for every mix of dense / sparse operands -/
+
+theorem foldTerms_sub (cq : F) (qd : Nat) (bterms : Terms F) (r : List F)
+    (hlen : ∀ t ∈ bterms, qd + t.1 < r.length) :
+    ∃ r', foldTerms (fun (r : List F) t => modifyAt (fun c => c - cq * t.2) r (qd + t.1)) bterms r
+        = .ok r' ∧ r'.length = r.length ∧
+      ∀ j, coeffB r' j = coeffB r j - cq * (if qd ≤ j then scoeff bterms (j - qd) else 0) := by
+  induction bterms generalizing r with
+  | nil => exact ⟨r, rfl, rfl, fun j => by simp⟩
+  | cons t ts ih =>
+    obtain ⟨r1, e1, e2, e3⟩ := modifyAt_ok (fun c => c - cq * t.2) r (qd + t.1) (hlen t (by simp))
+    obtain ⟨r', f1, f2, f3⟩ := ih r1 (fun u hu => by rw [e2]; exact hlen u (by simp [hu]))
+    refine ⟨r', ?_, by rw [f2, e2], fun j => ?_⟩
+    · rw [foldTerms, e1]; exact f1
+    · rw [f3, e3, scoeff_cons]
+      by_cases hj : j = qd + t.1
+      · subst hj
+        rw [if_pos rfl, if_pos (by omega), if_pos (by omega), if_pos (by omega)]; ring
+      · rw [if_neg hj]
+        by_cases hle : qd ≤ j
+        · rw [if_pos hle, if_pos hle, if_neg (by omega)]; ring
+        · rw [if_neg hle, if_neg hle]
+
+theorem sconv_congr_left (f f' g : Nat → F) (k : Nat) (h : ∀ i, f i = f' i) :
+    sconv f g k = sconv f' g k := by
+  have : f = f' := funext h
+  rw [this]
+
+/-- the `while` loop of `divide_with_q_and_r`, for an arbitrary divisor term list -/
+theorem divLoop_spec (db : Nat) (inv : F) (bterms : Terms F)
+    (hdeg : ∀ t ∈ bterms, t.1 ≤ db) (hinv : scoeff bterms db * inv = 1)
+    (A : Nat → F) (fuel : Nat) (q r : List F) (m : Nat)
+    (hfuel : r.length < fuel) (hr : CanonB r) (hrm : r.length ≤ m + db) (hqm : m ≤ q.length)
+    (hq0 : ∀ j, j < m → coeffB q j = 0)
+    (hA : ∀ k, A k = sconv (coeffB q) (scoeff bterms) k + coeffB r k) :
+    ∃ q' r', divLoop db inv bterms fuel q r = .ok (q', r') ∧ q'.length = q.length ∧ CanonB r' ∧
+      (r' = [] ∨ r'.length - 1 < db) ∧
+      ∀ k, A k = sconv (coeffB q') (scoeff bterms) k + coeffB r' k := by
+  induction fuel generalizing q r m with
+  | zero => omega
+  | succ fuel ih =>
+    rw [divLoop]
+    by_cases hz : Poly.isZero r = true
+    · rw [if_pos hz]
+      exact ⟨q, r, rfl, rfl, hr, Or.inl ((canon_isZero r hr).1 hz), hA⟩
+    · rw [if_neg hz, degree_canon r hr]
+      simp only [ok_bind]
+      by_cases hlt : r.length - 1 < db
+      · rw [if_pos hlt]
+        exact ⟨q, r, rfl, rfl, hr, Or.inr hlt, hA⟩
+      · rw [if_neg hlt]
+        have hne : r ≠ [] := fun h => hz ((canon_isZero r hr).2 h)
+        have hlen : 0 < r.length := List.length_pos_of_ne_nil hne
+        cases hgl : r.getLast? with
+        | none => rw [List.getLast?_eq_none_iff] at hgl; exact absurd hgl hne
+        | some lc =>
+          simp only [ok_bind]
+          have hlc : coeffB r (r.length - 1) = lc := coeffB_getLast r lc hgl
+          have hqd : r.length - 1 - db < q.length := by omega
+          obtain ⟨q1, e1, e2, e3⟩ := modifyAt_ok (fun _ => lc * inv) q (r.length - 1 - db) hqd
+          rw [e1]; simp only [ok_bind]
+          obtain ⟨r1, f1, f2, f3⟩ := foldTerms_sub (lc * inv) (r.length - 1 - db) bterms r
+            (fun t ht => by have := hdeg t ht; omega)
+          rw [f1]; simp only [ok_bind]
+          have hz1 : ∀ j, r.length - 1 ≤ j → coeffB r1 j = 0 := by
+            intro j hj
+            rw [f3, if_pos (by omega)]
+            by_cases hj' : j = r.length - 1
+            · subst hj'
+              have : r.length - 1 - (r.length - 1 - db) = db := by omega
+              rw [this, hlc]
+              have : lc * inv * scoeff bterms db = lc * (scoeff bterms db * inv) := by ring
+              rw [this, hinv]; ring
+            · rw [coeffB_of_le r j (by omega), scoeff_eq_zero_of_forall_ne]
+              · ring
+              · intro t ht; have := hdeg t ht; omega
+          have htl : (truncate r1).length ≤ r.length - 1 := truncate_length_le_of r1 _ hz1
+          obtain ⟨q', r', g1, g2, g3, g4, g5⟩ := ih q1 (truncate r1) (r.length - 1 - db)
+            (by omega) (truncate_canon r1) (by omega) (by omega)
+            (fun j hj => by rw [e3, if_neg (by omega)]; exact hq0 j (by omega))
+            (fun k => by
+              rw [hA k, coeffB_truncate, f3]
+              have hq1 : ∀ i, coeffB q1 i
+                  = coeffB q i + (if r.length - 1 - db = i then lc * inv else 0) := by
+                intro i
+                rw [e3]
+                by_cases hi : i = r.length - 1 - db
+                · subst hi; rw [if_pos rfl, if_pos rfl, hq0 _ (by omega)]; ring
+                · rw [if_neg hi, if_neg (fun h => hi h.symm)]; ring
+              rw [sconv_congr_left _ _ _ k hq1, sconv_add_left, sconv_delta]
+              by_cases hle : r.length - 1 - db ≤ k
+              · rw [if_pos hle, if_pos hle]; ring
+              · rw [if_neg hle, if_neg hle]; ring)
+          exact ⟨q', r', g1, by rw [g2, e2], g3, g4, g5⟩
+
+/-! ### the two representations, uniformly -/
+
+/-- coefficient function of a dense-or-sparse operand -/
+def dcoeff : DoS F → Nat → F
+  | .d p => coeffB p
+  | .s p => scoeff p
+
+/-- canonical dense-or-sparse operand -/
+def DCanon : DoS F → Prop
+  | .d p => CanonB p
+  | .s p => SCanon p
+
+/-- degree of a canonical dense-or-sparse operand -/
+def ddeg : DoS F → Nat
+  | .d p => p.length - 1
+  | .s p => sdeg p
+
+theorem scoeff_enumFrom (p : List F) (j i : Nat) :
+    scoeff (enumFrom p j) i = if j ≤ i then coeffB p (i - j) else 0 := by
+  induction p generalizing j with
+  | nil => simp [enumFrom]
+  | cons c cs ih =>
+    rw [enumFrom, scoeff_cons, ih]
+    by_cases h1 : j = i
+    · subst h1; simp
+    · by_cases h2 : j ≤ i
+      · have h3 : j + 1 ≤ i := by omega
+        obtain ⟨d, rfl⟩ : ∃ d, i = j + 1 + d := ⟨i - (j + 1), by omega⟩
+        have e1 : j + 1 + d - j = d + 1 := by omega
+        have e2 : j + 1 + d - (j + 1) = d := by omega
+        simp [h1, h2, h3, e1, e2]
+      · have h3 : ¬ j + 1 ≤ i := by omega
+        simp [h1, h2, h3]
+
+theorem mem_enumFrom (p : List F) (j : Nat) : ∀ t ∈ enumFrom p j, t.1 < j + p.length := by
+  induction p generalizing j with
+  | nil => simp [enumFrom]
+  | cons c cs ih =>
+    intro t ht
+    rw [enumFrom] at ht
+    rcases List.mem_cons.1 ht with rfl | ht
+    · simp
+    · have := ih (j + 1) t ht; simp only [List.length_cons]; omega
+
+theorem dos_isZero_coeff (x : DoS F) (h : x.isZero = true) (i : Nat) : dcoeff x i = 0 := by
+  cases x with
+  | d p => exact isZero_coeffB p h i
+  | s p => exact sIsZero_scoeff p h i
+
+theorem dos_degree (x : DoS F) (hx : DCanon x) : x.degree = .ok (ddeg x) := by
+  cases x with
+  | d p => exact degree_canon p hx
+  | s p => exact sDegree_scanon p hx
+
+theorem dos_toDense (x : DoS F) (hx : DCanon x) :
+    ∃ r, x.toDense = .ok r ∧ CanonB r ∧ (∀ i, coeffB r i = dcoeff x i) ∧ r.length ≤ ddeg x + 1 := by
+  cases x with
+  | d p => exact ⟨p, rfl, hx, fun i => rfl, by simp [ddeg]; omega⟩
+  | s p => exact sparseToDense_spec p hx
+
+theorem dos_terms_coeff (x : DoS F) (i : Nat) : scoeff x.iterWithIndex i = dcoeff x i := by
+  cases x with
+  | d p => simp [DoS.iterWithIndex, dcoeff, scoeff_enumFrom]
+  | s p => rfl
+
+theorem dos_leading (x : DoS F) (hx : DCanon x) (hz : x.isZero = false) :
+    ∃ lc, x.leadingCoefficient = some lc ∧ lc ≠ 0 ∧ dcoeff x (ddeg x) = lc ∧
+      ∀ t ∈ x.iterWithIndex, t.1 ≤ ddeg x := by
+  cases x with
+  | d p =>
+    have hx' : CanonB p := hx
+    have hne : p ≠ [] := by
+      intro h; subst h; simp [DoS.isZero, Poly.isZero] at hz
+    cases hgl : p.getLast? with
+    | none => rw [List.getLast?_eq_none_iff] at hgl; exact absurd hgl hne
+    | some lc =>
+      refine ⟨lc, hgl, fun h => hx' (h ▸ hgl), coeffB_getLast p lc hgl, ?_⟩
+      intro t ht
+      have := mem_enumFrom p 0 t ht
+      have := List.length_pos_of_ne_nil hne
+      simp only [ddeg]; omega
+  | s p =>
+    have hx' : SCanon p := hx
+    have hne : p ≠ [] := by
+      intro h; subst h; simp [DoS.isZero, sIsZero] at hz
+    cases hgl : p.getLast? with
+    | none => rw [List.getLast?_eq_none_iff] at hgl; exact absurd hgl hne
+    | some l =>
+      refine ⟨l.2, by simp [DoS.leadingCoefficient, hgl],
+        hx'.2 l (List.mem_of_getLast? hgl), ?_, scanon_le_sdeg p hx'⟩
+      have hd : sdeg p = l.1 := by simp [sdeg, hgl]
+      simp only [ddeg, dcoeff, hd]
+      obtain ⟨init, rfl⟩ : ∃ init, p = init ++ [l] :=
+        ⟨p.dropLast, (List.dropLast_append_getLast? l (by simpa using hgl)).symm⟩
+      rw [scoeff_append, scoeff_singleton, if_pos rfl, scoeff_eq_zero_of_forall_ne, zero_add]
+      intro t ht
+      have := (List.pairwise_append.1 hx'.1).2.2 t ht l (by simp)
+      omega
+
+/-- `divide_with_q_and_r` on canonical operands with a non-zero divisor, all four mixes -/
+theorem divideWithQAndR_spec (a b : DoS F) (ha : DCanon a) (hb : DCanon b)
+    (hbz : b.isZero = false) :
+    ∃ q r, divideWithQAndR a b = .ok (q, r) ∧ CanonB q ∧ CanonB r ∧
+      (∀ k, dcoeff a k = sconv (coeffB q) (dcoeff b) k + coeffB r k) ∧
+      (r = [] ∨ r.length - 1 < ddeg b) := by
+  unfold divideWithQAndR
+  by_cases haz : a.isZero = true
+  · rw [if_pos haz]
+    refine ⟨[], [], rfl, canon_nil, canon_nil, fun k => ?_, Or.inl rfl⟩
+    rw [dos_isZero_coeff a haz, sconv_zero_left _ _ _ (fun i => coeffB_nil i)]; simp
+  · rw [if_neg haz, hbz]
+    simp only [Bool.false_eq_true, if_false]
+    rw [dos_degree a ha, dos_degree b hb]
+    simp only [ok_bind]
+    obtain ⟨r, e1, e2, e3, e4⟩ := dos_toDense a ha
+    rw [e1]
+    by_cases hlt : ddeg a < ddeg b
+    · rw [if_pos hlt]
+      simp only [ok_bind, pure_ok]
+      refine ⟨[], r, rfl, canon_nil, e2, fun k => ?_, ?_⟩
+      · rw [e3, sconv_zero_left _ _ _ (fun i => coeffB_nil i)]; simp
+      · by_cases hr : r = []
+        · exact Or.inl hr
+        · have := List.length_pos_of_ne_nil hr
+          exact Or.inr (by omega)
+    · rw [if_neg hlt]
+      simp only [ok_bind]
+      obtain ⟨lc, l1, l2, l3, l4⟩ := dos_leading b hb hbz
+      rw [l1]; simp only
+      rw [if_neg l2]
+      have hdb : scoeff b.iterWithIndex (ddeg b) * lc⁻¹ = 1 := by
+        rw [dos_terms_coeff, l3]; exact mul_inv_cancel₀ l2
+      obtain ⟨q', r', g1, g2, g3, g4, g5⟩ := divLoop_spec (ddeg b) lc⁻¹ b.iterWithIndex l4 hdb
+        (dcoeff a) (r.length + 1) (List.replicate (ddeg a - ddeg b + 1) 0) r
+        (ddeg a - ddeg b + 1) (by omega) e2 (by omega) (by simp) (fun j _ => by simp)
+        (fun k => by
+          rw [e3, sconv_zero_left _ _ _ (fun i => coeffB_replicate_zero _ i)]; simp)
+      rw [g1]
+      simp only [ok_bind, pure_ok, fromCoefficientsVec]
+      refine ⟨truncate q', r', rfl, truncate_canon q', g3, fun k => ?_, g4⟩
+      rw [g5 k, sconv_congr_left _ _ _ k (coeffB_truncate q')]
+      have : scoeff b.iterWithIndex = dcoeff b := funext (dos_terms_coeff b)
+      rw [this]
+
+/-! ## 8. small facts used by the property file -/
+
+theorem sdeg_nil : sdeg ([] : Terms F) = 0 := rfl
+
+theorem sdeg_concat (init : Terms F) (t : Nat × F) : sdeg (init ++ [t]) = t.1 := by
+  simp [sdeg]
+
+theorem dos_isZero_d (b : List F) (hb : CanonB b) (h0 : b ≠ []) : (DoS.d b).isZero = false := by
+  cases h : (DoS.d b).isZero with
+  | false => rfl
+  | true => exact absurd ((canon_isZero b hb).1 h) h0
+
+theorem dos_isZero_s (t : Terms F) (ht : SCanon t) (h0 : t ≠ []) : (DoS.s t).isZero = false := by
+  cases h : (DoS.s t).isZero with
+  | false => rfl
+  | true => exact absurd ((scanon_sIsZero t ht).1 h) h0
+
+/-! ## 9. interpolation takes the given values (the naive inverse DFT of the model) -/
+
+theorem ofNat_eq (n : Nat) : (Poly.ofNat n : F) = (n : F) := by
+  induction n with
+  | zero => simp [Poly.ofNat]
+  | succ n ih => simp [Poly.ofNat, ih]
+
+theorem horner_truncate (p : List F) (x : F) : horner (truncate p) x = horner p x := by
+  induction p with
+  | nil => rfl
+  | cons c cs ih =>
+    unfold truncate
+    cases h : truncate cs with
+    | nil =>
+      rw [h] at ih
+      by_cases hc : c = 0
+      · simp [hc, ← ih]
+      · simp [hc, ← ih]
+    | cons t ts =>
+      rw [h] at ih
+      simp only [horner_cons] at ih ⊢
+      rw [ih]
+
+theorem foldl_running_pow (y : F) (l : List F) (acc pw : F) :
+    (l.foldl (fun (st : F × F) e => (st.1 + e * st.2, st.2 * y)) (acc, pw)).1
+      = acc + pw * horner l y := by
+  induction l generalizing acc pw with
+  | nil => simp
+  | cons e l ih => rw [List.foldl_cons, ih, horner_cons]; ring
+
+theorem coeffB_map_range (n : Nat) (f : Nat → F) (i : Nat) :
+    coeffB ((List.range n).map f) i = if i < n then f i else 0 := by
+  unfold coeffB
+  by_cases h : i < n
+  · rw [if_pos h]; simp [List.getD_eq_getElem?_getD, h]
+  · rw [if_neg h]; simp [List.getD_eq_getElem?_getD, h]
+
+theorem peval_map_range (n : Nat) (f : Nat → F) (x : F) :
+    peval ((List.range n).map f) x = ∑ j ∈ Finset.range n, f j * x ^ j := by
+  unfold peval
+  rw [List.length_map, List.length_range]
+  apply Finset.sum_congr rfl
+  intro j hj
+  rw [coeffB_map_range, if_pos (Finset.mem_range.1 hj)]
+
+theorem geom_orth (g : F) (n : Nat) (hg : g ^ n = 1)
+    (hprim : ∀ i, 0 < i → i < n → g ^ i ≠ 1) (k i : Nat) (hk : k < n) (hi : i < n) :
+    ∑ j ∈ Finset.range n, (g ^ k * g⁻¹ ^ i) ^ j = if i = k then (n : F) else 0 := by
+  have hg0 : g ≠ 0 := by
+    intro h; rw [h, zero_pow (by omega)] at hg; exact zero_ne_one hg
+  have hinv : ∀ m, g⁻¹ ^ m * g ^ m = 1 := by
+    intro m; rw [← mul_pow, inv_mul_cancel₀ hg0, one_pow]
+  by_cases hik : i = k
+  · subst hik
+    rw [if_pos rfl]
+    have : g ^ i * g⁻¹ ^ i = 1 := by rw [mul_comm]; exact hinv i
+    rw [this]; simp
+  · rw [if_neg hik]
+    set ζ := g ^ k * g⁻¹ ^ i with hζ
+    have hζn : ζ ^ n = 1 := by
+      rw [hζ, mul_pow, ← pow_mul, ← pow_mul, mul_comm k n, mul_comm i n, pow_mul, pow_mul, hg,
+        inv_pow, hg]; simp
+    have hζ1 : ζ ≠ 1 := by
+      intro h
+      have hki : g ^ k = g ^ i := by
+        have := congrArg (· * g ^ i) h
+        simp only [hζ, one_mul] at this
+        rw [mul_assoc, hinv i, mul_one] at this
+        exact this
+      rcases Nat.lt_or_gt_of_ne hik with hlt | hgt
+      · have hd : g ^ k = g ^ i * g ^ (k - i) := by rw [← pow_add]; congr 1; omega
+        rw [hd] at hki
+        have : g ^ (k - i) = 1 := by
+          have h1 : g ^ i * g ^ (k - i) = g ^ i * 1 := by rw [mul_one]; exact hki
+          exact mul_left_cancel₀ (pow_ne_zero _ hg0) h1
+        exact hprim (k - i) (by omega) (by omega) this
+      · have hd : g ^ i = g ^ k * g ^ (i - k) := by rw [← pow_add]; congr 1; omega
+        rw [hd] at hki
+        have : g ^ (i - k) = 1 := by
+          have h1 : g ^ k * g ^ (i - k) = g ^ k * 1 := by rw [mul_one]; exact hki.symm
+          exact mul_left_cancel₀ (pow_ne_zero _ hg0) h1
+        exact hprim (i - k) (by omega) (by omega) this
+    have := geom_sum_mul ζ n
+    rw [hζn, sub_self] at this
+    rcases mul_eq_zero.1 this with h | h
+    · exact h
+    · exact absurd (sub_eq_zero.1 h) hζ1
+
+theorem coeffB_ifftInPlace (D : Domain F) (ev : List F) (j : Nat) (hj : j < D.size) :
+    coeffB (ifftInPlace D ev) j
+      = (∑ i ∈ Finset.range D.size, coeffB (resize ev D.size) i * (D.gen⁻¹ ^ j) ^ i)
+        * (D.size : F)⁻¹ * D.offset⁻¹ ^ j := by
+  unfold ifftInPlace
+  simp only
+  rw [coeffB_map_range, if_pos hj, foldl_running_pow, horner_eq_peval]
+  unfold peval
+  rw [length_resize, pow_eq, pow_eq, ofNat_eq]; ring
+
+/-- the interpolant takes the given values on the domain -/
+theorem interpolate_value (D : Domain F) (ev : List F) (hg : D.gen ^ D.size = 1)
+    (hprim : ∀ i, 0 < i → i < D.size → D.gen ^ i ≠ 1) (hn : (D.size : F) ≠ 0)
+    (hh : D.offset ≠ 0) (k : Nat) (hk : k < D.size) :
+    peval (interpolate D ev) (D.offset * D.gen ^ k) = coeffB ev k := by
+  unfold interpolate fromCoefficientsVec
+  rw [← horner_eq_peval, horner_truncate, horner_eq_peval]
+  have hmap : ifftInPlace D ev = (List.range D.size).map (fun j => coeffB (ifftInPlace D ev) j) := by
+    apply list_ext_coeffB
+    · rw [length_ifftInPlace]; simp
+    · intro i
+      rw [coeffB_map_range]
+      by_cases hi : i < D.size
+      · rw [if_pos hi]
+      · rw [if_neg hi, coeffB_of_le _ _ (by rw [length_ifftInPlace]; omega)]
+  rw [hmap, peval_map_range]
+  have step : ∀ j ∈ Finset.range D.size,
+      coeffB (ifftInPlace D ev) j * (D.offset * D.gen ^ k) ^ j
+        = ∑ i ∈ Finset.range D.size, coeffB (resize ev D.size) i * (D.size : F)⁻¹
+            * (D.gen ^ k * D.gen⁻¹ ^ i) ^ j := by
+    intro j hj
+    rw [coeffB_ifftInPlace D ev j (Finset.mem_range.1 hj), Finset.sum_mul, Finset.sum_mul,
+      Finset.sum_mul]
+    apply Finset.sum_congr rfl
+    intro i _
+    have hh' : D.offset⁻¹ ^ j * D.offset ^ j = 1 := by
+      rw [← mul_pow, inv_mul_cancel₀ hh, one_pow]
+    rw [pow_right_comm, mul_pow, mul_pow (D.gen ^ k)]
+    linear_combination (coeffB (resize ev D.size) i * (D.gen⁻¹ ^ i) ^ j * (D.size : F)⁻¹
+      * (D.gen ^ k) ^ j) * hh'
+  rw [Finset.sum_congr rfl step, Finset.sum_comm]
+  have step2 : ∀ i ∈ Finset.range D.size,
+      ∑ j ∈ Finset.range D.size, coeffB (resize ev D.size) i * (D.size : F)⁻¹
+            * (D.gen ^ k * D.gen⁻¹ ^ i) ^ j
+        = if i = k then coeffB (resize ev D.size) i else 0 := by
+    intro i hi
+    rw [← Finset.mul_sum, geom_orth D.gen D.size hg hprim k i hk (Finset.mem_range.1 hi)]
+    by_cases hik : i = k
+    · rw [if_pos hik, if_pos hik, mul_assoc, inv_mul_cancel₀ hn, mul_one]
+    · rw [if_neg hik, if_neg hik, mul_zero]
+  rw [Finset.sum_congr rfl step2, Finset.sum_ite_eq', if_pos (Finset.mem_range.2 hk),
+    coeffB_resize, if_pos hk]
+
+/-- evaluating the interpolant over the domain returns the (zero-padded / truncated) input -/
+theorem evaluate_interpolate (D : Domain F) (ev : List F) (hg : D.gen ^ D.size = 1)
+    (hprim : ∀ i, 0 < i → i < D.size → D.gen ^ i ≠ 1) (hn : (D.size : F) ≠ 0)
+    (hh : D.offset ≠ 0) :
+    evaluateOverDomainRef D (interpolate D ev) = .ok (resize ev D.size) := by
+  have hn0 : D.size ≠ 0 := by intro h; rw [h] at hn; simp at hn
+  rw [evaluateOverDomainRef_spec D _ hn0 hg]
+  congr 1
+  apply list_ext_coeffB
+  · rw [length_resize]; simp
+  · intro i
+    rw [coeffB_map_range, coeffB_resize]
+    by_cases hi : i < D.size
+    · rw [if_pos hi, if_pos hi, interpolate_value D ev hg hprim hn hh i hi]
+    · rw [if_neg hi, if_neg hi]
 
 end Ark.PolyB
